@@ -154,6 +154,25 @@ def run(prog, ctx):
                           isinstance((s2.targets[0] if isinstance(s2, ast.Assign) else s2.target), ast.Subscript)]
                 if neg and whole and not others:
                     clip_loops.append((loop, w, c.node_of(loop)))
+    # vectorised form of the same clipping: `w[w < 0] = 0.0` / `neg = np.logical_not(w >= 0.0); ...; w[neg] = 0.0` (whole array, only the
+    # negative entries are replaced)
+    clip_stmts = []
+    zero_c = (("c", "0"), ("c", "0.0"))
+    for n_ in c.nodes:
+        if not (n_.kind == "stmt" and isinstance(n_.ast, ast.Assign) and len(n_.ast.targets) == 1 and isinstance(n_.ast.targets[0], ast.Subscript)
+                and isinstance(n_.ast.targets[0].value, ast.Name) and isinstance(n_.ast.value, ast.Constant) and n_.ast.value.value == 0):
+            continue
+        w_ = n_.ast.targets[0].value.id
+        mt = R.resolve_locals(cw, tm.term(n_.ast.targets[0].slice), n_, tm)
+        neg_mask = mt in [("cmp", "Lt", ("n", w_), z) for z in zero_c] or \
+            mt in [("call", ("a", ("n", "np"), "logical_not"), (("cmp", "LtE", z, ("n", w_)),), ()) for z in zero_c] or \
+            mt in [("not", ("cmp", "LtE", z, ("n", w_))) for z in zero_c] or mt in [("inv", ("cmp", "LtE", z, ("n", w_))) for z in zero_c]
+        if neg_mask:
+            clip_stmts.append((w_, n_))
+
+    def clipped_before(w_, node):
+        return any(wl == w_ and c.edge_dominates(ln, False, node) for (_l, wl, ln) in clip_loops) or \
+            any(wl == w_ and sn is not node and c.dominates(sn, node) for (wl, sn) in clip_stmts)
     for k, r in enumerate(named):
         w = r.ast.value.id
         guards = [g for (g, gn) in R.dominating_guards(cw, r, tm) if gn.kind == "test"]
@@ -161,11 +180,16 @@ def run(prog, ctx):
             # modified basis: delegated to the unweighted rule, outside the non-negativity clause
             ctx.ok("C15.D1", R.key_of(cw, "modified-basis-return"), cw.loc(r.ast), "modified-basis path: not part of the non-negativity clause")
             continue
-        ok = any(wl == w and c.edge_dominates(ln, False, r) for (_l, wl, ln) in clip_loops)
+        ok = clipped_before(w, r)
         why = "no clipping loop over all entries dominates the return"
         if ok:
-            loopn = [ln for (_l, wl, ln) in clip_loops if wl == w][0]
-            after = c.reachable(loopn, blocked_edges={(loopn.idx, s.idx, l) for (s, l) in loopn.succ if l is True})
+            loop_pts = [ln for (_l, wl, ln) in clip_loops if wl == w]
+            if loop_pts:
+                loopn = loop_pts[0]
+                after = c.reachable(loopn, blocked_edges={(loopn.idx, s.idx, l) for (s, l) in loopn.succ if l is True})
+            else:
+                loopn = [sn for (wl, sn) in clip_stmts if wl == w][0]
+                after = c.reachable_after(loopn)
             # stores after the clipping may only write non-negative values
             for n in c.nodes:
                 if n.idx in after and n is not loopn and n.kind == "stmt" and isinstance(n.ast, (ast.Assign, ast.AugAssign)):
@@ -308,7 +332,7 @@ def run(prog, ctx):
                                                                           for z in ast.walk(x.value))]
             anchor = c.node_of(fdefs[0].stmt) if fdefs else norm
             ok = c.dominates(zero_first, anchor) and c.dominates(zero_last, anchor) and \
-                any(wl == w and c.edge_dominates(ln, False, anchor) for (_l, wl, ln) in clip_loops)
+                clipped_before(w, anchor)
             why = "the normalising sum is taken before the end entries are zeroed / before the clipping"
     ctx.check(ok, "C15.D3", R.key_of(cw, "renormalise-without-boundary"), cw.loc(norm.ast) if norm is not None else cw.loc(),
               "without boundary points: end entries zeroed, inner entries scaled by the reciprocal of their own sum",
@@ -344,6 +368,14 @@ def run(prog, ctx):
                 t = tmm.term(b.value)
                 if t[0] == "comp" and t[2][0] == "call" and t[2][1] in (("n", "abs"),) :
                     ok = True
+                # [-v if v < 0 else v for v in raw] / [v if v >= 0 else -v ...]: the sign fix per entry as a conditional expression
+                bv = ("bv", "$0")
+                zero_ = (("c", "0"), ("c", "0.0"))
+                if t[0] == "comp" and t[2][0] == "ifexp" and len(t[3]) == 1 and t[3][0][0] == bv and \
+                        ((t[2][1][0] == "cmp" and t[2][1][1] == "Lt" and t[2][1][2] == bv and t[2][1][3] in zero_ and t[2][2] == ("neg", bv) and t[2][3] == bv)
+                         or (t[2][1][0] == "cmp" and t[2][1][1] == "LtE" and t[2][1][2] in zero_ and t[2][1][3] == bv and t[2][2] == bv and t[2][3] == ("neg", bv))):
+                    if rets and cm.dominates(cm.node_of(b.stmt), rets[0]):
+                        ok = True
     # alternative: one loop that computes each entry, fixes its sign and appends it -- judged per entry by path summaries of the body
     entry_vals = None
     if not ok and rets and isinstance(rets[0].ast.value, ast.Tuple) and len(rets[0].ast.value.elts) == 2 and isinstance(rets[0].ast.value.elts[1], ast.Name):
@@ -383,6 +415,9 @@ def run(prog, ctx):
     for b in tmm.env.bindings.get(var if (rets and var is not None) else "variance", []):
         if b.kind == "assign":
             t = Terms(mv.node).term(b.value)
+            # a sign-fixing comprehension over the raw variances: judge the comprehension it ranges over
+            if t[0] == "comp" and len(t[3]) == 1 and t[2][0] == "ifexp" and isinstance(t[3][0][1], tuple) and t[3][0][1][0] == "comp":
+                t = t[3][0][1]
             if t[0] == "comp" and len(t[3]) == 1:
                 body = t[2]
                 m1, m2 = mv.params[0], mv.params[1]
